@@ -618,6 +618,44 @@ for _k in NEST_GROUPS:
     CONDITIONS.append({"fn": "c15_nested_" + _k, "quick": 30, "thorough": 90})
 
 
+# ---- render / call issued from inside a {% block %} of a template that extends another ------------------------------
+_XP = dict(PARTIALS)
+_XP["xbase"] = ("{% assign x = v %}{% capture y %}{{ v }}{% endcapture %}{% for a in vs %}{% block bb %}{% endblock %}{% endfor %}"
+                "{% block cc %}{% endblock %}#{{ x }}|{{ y }}")
+_XP["xchild"] = ("{% extends 'xbase' %}{% block bb %}{% render 'p', w: e %}{% endblock %}"
+                 "{% block cc %}{% macro m w %}" + READ + "{% endmacro %}{% call m e %}{% render 'p' with e as q %}{% endblock %}")
+XENV = Environment(extra=True, loader=CachingDictLoader(_XP, auto_reload=False))
+XENV.add_tag(SnippetTag)
+for _n in _XP:
+    XENV.get_template(_n)
+XCHILD = XENV.get_template("xchild")
+
+
+def c15_render_in_block(v1: int, v2: int, e: int, n: int, use_async: bool) -> bool:
+    """
+    pre: 0 <= v1 <= 9 and 0 <= v2 <= 9 and 0 <= e <= 9 and 0 <= n <= 2
+    post: _
+    """
+    # the caller is a template that extends a base; the render / call tags sit inside overridden blocks, one of
+    # them inside a for loop of the base, after the base assigned and captured x and y
+    if excluded("c15_render_in_block", locals()):
+        return True
+    outs = []
+    for v in (v1, v2):
+        d = {"v": v, "vs": [v + k for k in range(n)], "e": e}
+        outs.append(render(XCHILD, d, use_async))
+    body = seg({"w": e}, False, {}, False)
+    exp_body = body * n + seg({"w": e}, False, {}, False) + seg({"q": e}, False, {}, False)
+    ok = True
+    for k in range(2):
+        v = (v1, v2)[k]
+        ok = ok and outs[k] == exp_body + "#%s|%s" % (s(v), s(v))
+    return finish(ok)
+
+
+CONDITIONS.append({"fn": "c15_render_in_block", "quick": 60, "thorough": 200})
+
+
 ASSUMPTIONS = [
     "caller, partial, macro and snippet sources are the concrete skeletons of harness/c15.py; caller-local values, arguments, bound values and globals are symbolic one-digit ints (CrossHair forks str(int) per digit count), strings <= 1 over {a,b} in c15_str_*",
     "global data = keyword arguments of BoundTemplate.render; the two runs differ only in the data items v / vs / ks, which only the caller reads to bind its locals",
